@@ -562,6 +562,8 @@ class LimitRuleRun(Harness):
                for t in (["M0"], ["M1"], ["M0", "M1"]) for w in (0, 1)]
         out.append({"targets": ["M0"], "where": 0, "n1": 1, "active": [0, 0], "acts": ["limit"]})
         out.append({"targets": ["M0", "M1"], "where": 0, "n1": 1, "active": [1, 1], "acts": ["limit"], "rule_first": True})
+        # a high-frequency agent quoting after the normal agents' batches
+        out.append({"targets": ["M0"], "where": 0, "n1": 1, "active": [1, 1], "acts": ["limit"], "only_m0": True, "hft": 1})
         # an order-mistake shock on a target market while the rule is active (the replaced order must be clipped too)
         out.append({"targets": ["M0"], "where": 0, "n1": 1, "active": [1, 1], "acts": ["limit"], "only_m0": True,
                     "mistake": True})
@@ -586,7 +588,10 @@ class LimitRuleRun(Harness):
             sessions[0]["events"].append("MISTAKE")
             extra["MISTAKE"] = {"class": "OrderMistakeShock", "target": "M0", "triggerTime": 1, "priceChangeRate": -0.5,
                                 "orderVolume": 1, "orderTimeLength": 2}
-        st = rn.base_settings(n_agents=2, sessions=sessions, markets=markets, extra=extra)
+        st = rn.base_settings(n_agents=2 if not case.get("hft") else 1, n_hft=case.get("hft", 0), sessions=sessions,
+                              markets=markets, extra=extra)
+        if case.get("hft"):
+            st["H"]["markets"] = ["M0"]
         p0_at, p0_fill = {}, {}
 
         def on_event(kind, agent, p):
@@ -604,7 +609,7 @@ class LimitRuleRun(Harness):
         sim = ctx.sim
         # with orders in step 0 the reference price itself is a solver term: the rate is then a concrete number
         # so that the band stays linear in the solver variables
-        r = g.real("r", 0, 1, lo_strict=True, hi_strict=True) if case["active"][0] > 0 else 0.05
+        r = g.real("r", 0, 1, lo_strict=True, hi_strict=True) if case["active"][0] > 0 and not case.get("hft") else 0.05
         replaced = {"n": 0}
         for e in sim.events:
             if isinstance(e, PriceLimitRule):
